@@ -13,4 +13,5 @@ PROPS = {
     'C05': {'modules': ['harness.p_sim']},
     'C07': {'modules': ['harness.h_c07', 'harness.p_sim']},
     'C08': {'modules': ['harness.h_c08', 'harness.p_sim']},
+    'C16': {'modules': ['harness.h_c16']},
 }
